@@ -1,6 +1,6 @@
 (* C16: the step theorem for the whole command alphabet, runs, and counter monotonicity. *)
-From Coq Require Import ZArith List Bool Lia ZifyBool.
-From OG Require Import C16.Model C16.Wf C16.Lists C16.Proofs C16.ProofsCmd C16.ProofsSg.
+From Coq Require Import ZArith List Bool Lia ZifyBool Sorting.Permutation.
+From OG Require Import C16.Model C16.Wf C16.Lists C16.Proofs C16.ProofsCmd C16.ProofsSg C16.ProofsNew C16.ProofsInv.
 Import ListNotations.
 Open Scope Z_scope.
 
@@ -18,8 +18,33 @@ Definition env_ok (c : cat) (x : cmd) : Prop :=
   | CreateSg _ _ t _ => MINNANO <= t < MAXNANO1
   | PruneIg id => prune_ig_env c id
   | Restore => representable c     (* no group starts before -2^63 ns (finding C16-restore-wraps-early-group-start) *)
+  | RenameRp _ _ nn _ _ _ => nn <> 0   (* a policy is not renamed to the empty name (CreateRetentionPolicy refuses it too) *)
   | _ => True
   end.
+
+(* the code variant with the repairs that well-formedness needs *)
+Definition repaired (c : cat) : Prop := rekey c = true /\ safecancel c = true.
+(* the inductive invariant: the statement plus what its preservation needs *)
+Definition good (c : cat) : Prop := wf c /\ all_aligned c /\ covered c /\ repaired c.
+
+Definition switches (c : cat) : bool * bool * bool * bool := (clampst c, schemafirst c, rekey c, safecancel c).
+Lemma apply_switches : forall clip cd c x, switches (fst (apply clip cd c x)) = switches c.
+Proof.
+  intros clip cd c x. destruct x; cbn [apply];
+    unfold create_db, mark_db, drop_db, create_rp, update_rp, mark_rp, drop_rp, set_default_rp, create_mst, mark_mst, drop_mst,
+      create_sg, delete_sg, prune_sg, delete_ig, prune_ig, create_node, create_ptview, update_pt, create_mst_bad, rename_rp,
+      cancel_delete_sg, remove_node, ok, err, add_mst, set_default, upd_pol, upd_db, restore_state;
+    repeat match goal with
+           | |- context [match ?e with _ => _ end] => destruct e eqn:?; cbn [fst snd]
+           | |- context [if ?e then _ else _] => destruct e eqn:?; cbn [fst snd]
+           end; reflexivity.
+Qed.
+
+Lemma repaired_step : forall clip cd c x, repaired c -> repaired (fst (apply clip cd c x)).
+Proof.
+  intros clip cd c x [R1 R2]. pose proof (apply_switches clip cd c x) as E. unfold switches in E. inversion E as [[E1 E2 E3 E4]].
+  unfold repaired. rewrite E3, E4. tauto.
+Qed.
 
 Lemma wrap64_id : forall z, MININT <= z <= MAXNANO1 -> wrap64 z = z.
 Proof. intros z H. unfold wrap64, MININT, MAXNANO1 in *. rewrite Z.mod_small; lia. Qed.
@@ -46,9 +71,12 @@ Proof. intros. apply wf_b_iff. reflexivity. Qed.
 Lemma wf_init : forall per sc, wf (init_cat per sc).
 Proof. intros. apply wf_init_v. Qed.
 
-Lemma wf_step : forall c x, wf c -> env_ok c x -> wf (fst (apply true true c x)).
+Lemma wf_init_o : forall per sc cl sf rk sca, wf (init_cat_o per sc cl sf rk sca).
+Proof. intros. apply wf_b_iff. reflexivity. Qed.
+
+Lemma wf_step : forall c x, wf c -> all_aligned c -> repaired c -> env_ok c x -> wf (fst (apply true true c x)).
 Proof.
-  intros c x H E. destruct x; cbn [apply].
+  intros c x H AA [RK SC] E. destruct x; cbn [apply].
   - apply wf_create_db; assumption.
   - apply wf_mark_db; assumption.
   - apply wf_drop_db; assumption.
@@ -69,6 +97,93 @@ Proof.
   - apply wf_create_ptview; assumption.
   - apply wf_update_pt; assumption.
   - cbn [fst ok]. rewrite restore_state_id by exact E. exact H.
+  - apply wf_create_mst_bad; assumption.
+  - apply wf_rename_rp; assumption.
+  - apply wf_cancel_delete_sg; assumption.
+  - apply wf_remove_node; assumption.
+Qed.
+
+Lemma aligned_step : forall c x, wf c -> all_aligned c -> env_ok c x -> all_aligned (fst (apply true true c x)).
+Proof.
+  intros c x H AA E. destruct (is_create_sg x) eqn:Ex.
+  - destruct x; try discriminate. cbn [apply]. apply all_aligned_create_sg; assumption.
+  - eapply all_aligned_from; [|exact AA]. apply pols_from_step; [exact Ex|]. intros ->. apply restore_state_id. exact E.
+Qed.
+
+Lemma covered_step : forall c x, wf c -> covered c -> env_ok c x -> covered (fst (apply true true c x)).
+Proof.
+  intros c x H CV E. destruct (is_create_sg x) eqn:Ex.
+  - destruct x; try discriminate. cbn [apply]. apply covered_create_sg; assumption.
+  - eapply covered_from; [|exact CV]. apply pols_from_step; [exact Ex|]. intros ->. apply restore_state_id. exact E.
+Qed.
+
+(* ---- with group starts clamped to models.MinNanoTime (/repo 3695b47) every instant of the catalogue stays representable
+        as int64 nanoseconds, so the hypothesis of Restore holds by itself ---- *)
+Lemma representable_from : forall c c', pols_from c c' -> representable c -> representable c'.
+Proof.
+  intros c c' F R. unfold representable in *. rewrite Forall_forall in *. intros p' Hp'.
+  destruct (F p' Hp') as [[E1 E2]|[p [Hp [A B]]]]; [rewrite E1, E2; split; constructor|].
+  destruct (R p Hp) as [Rs Ri]. rewrite Forall_forall in Rs, Ri. split; apply Forall_forall.
+  - intros g' Hg'. destruct (A g' Hg') as [g [Hg (E1 & E2 & _)]]. rewrite E1, E2. exact (Rs g Hg).
+  - intros g' Hg'. destruct (B g' Hg') as [g [Hg (E1 & E2 & _)]]. rewrite E1, E2. exact (Ri g Hg).
+Qed.
+
+Lemma representable_create_sg : forall c db rp t eng, wf c -> clampst c = true -> MINNANO <= t < MAXNANO1 -> representable c ->
+  representable (fst (create_sg true c db rp t eng)).
+Proof.
+  intros c db rp t eng H CL Ht R. unfold create_sg.
+  destruct (ptnum c =? 0); [exact R|]. destruct (get_pol c db rp) as [p|] eqn:Eg; [|exact R].
+  destruct (existsb (fun g => covers g t eng) (rp_sgs p)) eqn:Ecov; [exact R|].
+  destruct (rp_msts p); [exact R|].
+  destruct (ensure_ig c p t (new_sg_end true p t eng) eng) as [ig isnew] eqn:Eig. cbn [fst ok].
+  pose proof (nonneg_get _ H) as NN.
+  destruct (get_pol_spec _ _ _ _ Eg) as (_ & Hp & _).
+  pose proof (wf_dur _ H) as DUR. rewrite Forall_forall in DUR. pose proof (DUR p Hp) as Hd.
+  destruct (ensure_ig_spec _ _ _ _ _ _ _ Eig) as (_ & _ & Inew); [lia|].
+  (* the new group *)
+  assert (Gs : span_ok (sg_start (new_sgroup true c p ig t eng)) (sg_end (new_sgroup true c p ig t eng))).
+  { cbn [new_sgroup sg_start sg_end]. rewrite CL. unfold new_sg_end.
+    set (s := trunc t (rp_sgdur p)). set (e := cell_end s (rp_sgdur p)).
+    assert (Hs : s <= t) by (apply trunc_le; exact Hd).
+    assert (He : t < e) by (unfold e, cell_end; pose proof (trunc_gt t (rp_sgdur p) Hd); fold s in H0; lia).
+    pose proof (clip_lo_ge (rp_sgs p) eng t (Z.max s MINNANO)). pose proof (clip_lo_le (rp_sgs p) eng t (Z.max s MINNANO)).
+    pose proof (clip_hi_le (rp_sgs p) eng t e). pose proof (clip_hi_gt (rp_sgs p) eng t e He).
+    assert (e <= MAXNANO1) by (unfold e, cell_end; lia).
+    unfold span_ok, MININT, MINNANO, MAXNANO1 in *. lia. }
+  assert (Is : isnew = true -> span_ok (ig_start ig) (ig_end ig)).
+  { intros En. rewrite (Inew En). cbn [new_igroup ig_start ig_end]. rewrite CL.
+    pose proof (new_sg_end_le p t eng). destruct Gs as [_ Ge]. cbn [new_sgroup sg_end] in Ge.
+    destruct (Z.leb_spec (rp_igdur p) 0).
+    - unfold trunc. replace (rp_igdur p <=? 0) with true by lia. unfold span_ok, MININT, MINNANO, MAXNANO1 in *. lia.
+    - pose proof (trunc_le t (rp_igdur p) H1). unfold span_ok, MININT, MINNANO, MAXNANO1 in *. lia. }
+  unfold representable in *. rewrite Forall_forall in *. intros p' Hp'. unfold upd_pol in Hp'. cbn [pols set_pols set_sg_counters] in Hp'.
+  apply updf_In in Hp'. destruct Hp' as [Hp'|[q [Hq [_ ->]]]]; [exact (R p' Hp')|].
+  destruct (R q Hq) as [Rs Ri]. cbn [rp_sgs rp_igs pol_set_sgs]. split.
+  - eapply Permutation_Forall; [apply Permutation_sym, insert_sg_perm|]. constructor; [exact Gs|]. destruct isnew; exact Rs.
+  - destruct isnew; cbn [rp_igs pol_set_igs]; [|exact Ri].
+    eapply Permutation_Forall; [apply Permutation_sym, insert_ig_perm|]. constructor; [apply Is; reflexivity | exact Ri].
+Qed.
+
+Lemma representable_step : forall c x, wf c -> clampst c = true -> representable c -> env_ok c x ->
+  representable (fst (apply true true c x)).
+Proof.
+  intros c x H CL R E. destruct (is_create_sg x) eqn:Ex.
+  - destruct x; try discriminate. cbn [apply]. apply representable_create_sg; assumption.
+  - eapply representable_from; [|exact R]. apply pols_from_step; [exact Ex|]. intros ->. apply restore_state_id. exact R.
+Qed.
+
+Lemma good_step : forall c x, good c -> env_ok c x -> good (fst (apply true true c x)).
+Proof.
+  intros c x (H & AA & CV & R) E. split; [|split; [|split]].
+  - apply wf_step; assumption.
+  - apply aligned_step; assumption.
+  - apply covered_step; assumption.
+  - apply repaired_step; assumption.
+Qed.
+
+Lemma good_init : forall per sc cl sf, good (init_cat_o per sc cl sf true true).
+Proof.
+  intros. split; [apply wf_init_o|]. split; [intros p g []|]. split; [constructor | split; reflexivity].
 Qed.
 
 (* every command of the sequence meets the environment's guarantee in the state it is applied to *)
@@ -78,17 +193,17 @@ Fixpoint env_run (c : cat) (xs : list cmd) : Prop :=
   | x :: r => env_ok c x /\ env_run (fst (apply true true c x)) r
   end.
 
-Lemma wf_run : forall xs c, wf c -> env_run c xs -> wf (run true true c xs).
+Lemma good_run : forall xs c, good c -> env_run c xs -> good (run true true c xs).
 Proof.
   induction xs; intros c H E; cbn [run]; [exact H|]. destruct E as [E1 E2].
-  apply IHxs; [apply wf_step; assumption | exact E2].
+  apply IHxs; [apply good_step; assumption | exact E2].
 Qed.
 
 (* every prefix of a run is well-formed, i.e. the statement holds after every single step *)
-Lemma wf_run_prefix : forall xs c k, wf c -> env_run c xs -> wf (run true true c (firstn k xs)).
+Lemma good_run_prefix : forall xs c k, good c -> env_run c xs -> good (run true true c (firstn k xs)).
 Proof.
   induction xs; intros c k H E; destruct k; cbn [firstn run]; try exact H.
-  destruct E as [E1 E2]. apply IHxs; [apply wf_step; assumption | exact E2].
+  destruct E as [E1 E2]. apply IHxs; [apply good_step; assumption | exact E2].
 Qed.
 
 (* ---- counters never decrease (both variants of the step function) ---- *)
@@ -103,7 +218,8 @@ Lemma counters_mono : forall clip cd c x, 0 <= ptnum c -> 0 <= ptper c -> counte
 Proof.
   intros clip cd c x Hp Hpp. destruct x; cbn [apply];
     unfold create_db, mark_db, drop_db, create_rp, update_rp, mark_rp, drop_rp, set_default_rp, create_mst, mark_mst, drop_mst,
-      create_sg, delete_sg, prune_sg, delete_ig, prune_ig, create_node, create_ptview, update_pt, ok, err, add_mst, set_default, upd_pol, upd_db, restore_state;
+      create_sg, delete_sg, prune_sg, delete_ig, prune_ig, create_node, create_ptview, update_pt, create_mst_bad, rename_rp,
+      cancel_delete_sg, remove_node, ok, err, add_mst, set_default, upd_pol, upd_db, restore_state;
     repeat match goal with
            | |- context [match ?e with _ => _ end] => destruct e eqn:?; cbn [fst snd]
            | |- context [if ?e then _ else _] => destruct e eqn:?; cbn [fst snd]
@@ -120,13 +236,14 @@ Definition representable_b (c : cat) : bool :=
   forallb (fun p => forallb (fun g => span_ok_b (sg_start g) (sg_end g)) (rp_sgs p) &&
                     forallb (fun g => span_ok_b (ig_start g) (ig_end g)) (rp_igs p)) (pols c).
 Definition env_ok_b (c : cat) (x : cmd) : bool :=
-  match x with CreateSg _ _ t _ => (MINNANO <=? t) && (t <? MAXNANO1) | PruneIg id => prune_ig_env_b c id | Restore => representable_b c | _ => true end.
+  match x with CreateSg _ _ t _ => (MINNANO <=? t) && (t <? MAXNANO1) | PruneIg id => prune_ig_env_b c id | Restore => representable_b c
+             | RenameRp _ _ nn _ _ _ => negb (nn =? 0) | _ => true end.
 Fixpoint env_run_b (c : cat) (xs : list cmd) : bool :=
   match xs with [] => true | x :: r => env_ok_b c x && env_run_b (fst (apply true true c x)) r end.
 
 Lemma env_ok_b_sound : forall c x, env_ok_b c x = true -> env_ok c x.
 Proof.
-  intros c x. destruct x; cbn [env_ok_b env_ok]; try (intros; exact I); [lia| |].
+  intros c x. destruct x; cbn [env_ok_b env_ok]; try (intros; exact I); [lia| | |lia].
   2: { unfold representable_b, representable. intros Hb. rewrite forallb_forall in Hb. apply Forall_forall. intros p Hp.
        specialize (Hb p Hp). apply andb_true_iff in Hb. destruct Hb as [B1 B2]. rewrite forallb_forall in B1, B2.
        split; apply Forall_forall; intros g Hg; [specialize (B1 g Hg) | specialize (B2 g Hg)]; unfold span_ok_b, span_ok in *; lia. }
@@ -150,4 +267,30 @@ Lemma restore_transparent : forall clip cd l1 l2 c, representable (run clip cd c
   run clip cd c (l1 ++ Restore :: l2) = run clip cd c (l1 ++ l2).
 Proof.
   intros clip cd l1 l2 c R. rewrite !run_app. cbn [run apply fst ok]. rewrite restore_state_id by exact R. reflexivity.
+Qed.
+
+(* ---- the clamped variant needs no assumption about Restore ---- *)
+Definition env_ok0 (c : cat) (x : cmd) : Prop := match x with Restore => True | _ => env_ok c x end.
+Fixpoint env_run0 (c : cat) (xs : list cmd) : Prop :=
+  match xs with
+  | [] => True
+  | x :: r => env_ok0 c x /\ env_run0 (fst (apply true true c x)) r
+  end.
+
+Lemma env_ok0_clamped : forall c x, representable c -> env_ok0 c x -> env_ok c x.
+Proof. intros c x R E. destruct x; try exact E. exact R. Qed.
+
+Lemma clamped_env_run : forall xs c, good c -> clampst c = true -> representable c -> env_run0 c xs -> env_run c xs.
+Proof.
+  induction xs as [|x r IH]; intros c G CL R E; cbn [env_run env_run0] in *; [exact I|]. destruct E as [E1 E2].
+  pose proof (env_ok0_clamped c x R E1) as E1'. split; [exact E1'|].
+  apply IH; [apply good_step; assumption | | | exact E2].
+  - pose proof (apply_switches true true c x) as S. unfold switches in S. inversion S as [[S1 S2 S3 S4]]. rewrite S1. exact CL.
+  - destruct G as (W & _). apply representable_step; assumption.
+Qed.
+
+Lemma env_run_env_run0 : forall xs c, env_run c xs -> env_run0 c xs.
+Proof.
+  induction xs as [|x r IH]; intros c E; cbn [env_run env_run0] in *; [exact I|]. destruct E as [E1 E2].
+  split; [destruct x; try exact E1; exact I | apply IH; exact E2].
 Qed.
